@@ -175,8 +175,21 @@ Definition srt_doc (caps : list (str * list node)) : str := srt_doc_merged (srt_
 Definition srt_doc_prefix (caps : list (str * list node)) : str := drop_last (srt_blocks_from srt_content_prefix 1 caps).
 
 (* ---- MicroDVD -------------------------------------------------------------- *)
+(* a line end inside a text node (CR LF, CR, LF - also at its edges) is written as a line break '|'
+   (re.sub('\r\n|\r|\n', '|', content)); every other character, U+2028 included, is written as it is *)
+Fixpoint mdvd_nl (s : str) : str :=
+  match s with
+  | [] => []
+  | c :: t =>
+      if c =? 13 then 124 :: match t with
+                             | d :: t' => if d =? 10 then mdvd_nl t' else mdvd_nl t
+                             | [] => []
+                             end
+      else if c =? 10 then 124 :: mdvd_nl t
+      else c :: mdvd_nl t
+  end.
 Definition mdvd_piece (n : node) : str :=
-  match n with NText s => s | NBreak => lit "|" | NStyle _ _ => [] end.
+  match n with NText s => mdvd_nl s | NBreak => lit "|" | NStyle _ _ => [] end.
 
 (* while p in s: s = s.replace(p, r) *)
 Fixpoint while_replace (fuel : nat) (p r s : str) : str :=
